@@ -1,11 +1,14 @@
 package main
 
 import (
+	"errors"
 	"fmt"
 	"strings"
 
 	casbin "github.com/casbin/casbin/v2"
 	"github.com/casbin/casbin/v2/model"
+	"github.com/casbin/casbin/v2/rbac"
+	defaultrolemanager "github.com/casbin/casbin/v2/rbac/default-role-manager"
 )
 
 // C15: every effective change is persisted, then announced exactly once.
@@ -142,8 +145,64 @@ func c15History(c *Ctx, id string, conf machConf, wkind string, autosave, autono
 	}
 }
 
+// a role manager whose AddLink fails
+type c15FailingRM struct {
+	rbac.RoleManager
+}
+
+func (f *c15FailingRM) AddLink(n1, n2 string, d ...string) error {
+	return errors.New("injected role manager failure")
+}
+
+// calls that report an error announce nothing: single-rule grouping adds whose rule is stored
+// but whose role link cannot be built (a failing role manager; a rule shorter than the role
+// definition) return an error -- for every watcher kind nothing may reach the bus.
+func c15ErrorsAnnounceNothing(c *Ctx) {
+	for _, wk := range []string{"plain", "ex", "upd"} {
+		for _, how := range []string{"failing-rm", "short-rule", "failing-rm-role-api"} {
+			m := newMach(machRBAC, true, true, wk, nil)
+			_, _ = m.E.AddPolicy("admin", "data1", "read")
+			base := len(*m.WLog)
+			var ok bool
+			var err error
+			switch how {
+			case "failing-rm":
+				m.E.SetRoleManager(&c15FailingRM{RoleManager: defaultrolemanager.NewRoleManagerImpl(10)})
+				ok, err = m.E.AddGroupingPolicy("alice", "admin")
+			case "failing-rm-role-api":
+				m.E.SetRoleManager(&c15FailingRM{RoleManager: defaultrolemanager.NewRoleManagerImpl(10)})
+				ok, err = m.E.AddRoleForUser("alice", "admin")
+			case "short-rule":
+				ok, err = m.E.AddGroupingPolicy("carol")
+			}
+			announced := (*m.WLog)[base:]
+			if (err != nil || !ok) && len(announced) != 0 {
+				c.Direct(fmt.Sprintf("c15.error-announces.%s.%s", wk, how), fmt.Sprintf("a management call that reported (%v, %v) was announced all the same: %v", ok, err, announced), how)
+			}
+			if len(announced) != 0 {
+				// whatever was announced: a peer that reloads from the shared adapter must reach
+				// the originator's decisions
+				pm, _ := model.NewModelFromString(machRBAC.Text)
+				peer, perr := casbin.NewEnforcer(pm, m.A)
+				for _, u := range []string{"alice", "carol", "admin"} {
+					a, _ := m.E.Enforce(u, "data1", "read")
+					var b bool
+					if perr == nil {
+						b, _ = peer.Enforce(u, "data1", "read")
+					}
+					if perr != nil || a != b {
+						c.Direct(fmt.Sprintf("c15.error-announces.%s.%s", wk, how), fmt.Sprintf("the call reported (%v, %v) and announced %v, but a peer reloading from the shared adapter does not reach the originator's decisions: Enforce(%s,data1,read) originator=%v peer=%v (peer load error: %v)", ok, err, announced, u, a, b, perr), how)
+					}
+				}
+			}
+			c.Count("error-announces-nothing")
+		}
+	}
+}
+
 func init() {
 	register("C15", func(c *Ctx) {
+		c15ErrorsAnnounceNothing(c)
 		c.Rule = "seeded histories (length 8..26) of management calls incl. no-op, failing (injected adapter errors) and Self* calls, SavePolicy, LoadPolicy, flag toggles, on three models x watcher kinds {plain, ex, upd, none} x the four auto-save/auto-notify settings; every step compared with the model on result, listed rules, notifications with their callback-time snapshots, adapter content. Distinct = history; non-trivial = the history changes the listed rules. Additions: every Self* entry point incl. update / filtered removal, UpdateFilteredPolicies, one-rule batches; the peer follows announcements through the callback SetWatcher registered on its own watcher (default reload callback required for every watcher that is not a WatcherEx)."
 		nh := 6000
 		if c.Thorough() {
